@@ -150,3 +150,16 @@ Fixpoint route_subseq (sub full : list opath) : bool :=
        | q :: l' => if same_route p q && (o_exp p <=? o_exp q) then route_subseq sub' l' else find l'
        end) full
   end.
+
+(** ** decidable hypothesis of [combine_sorted]: no peer hop field of the segment set has the
+    (ConsIngress, ConsEgress) pair of a regular hop field of the set (a peering interface is not
+    at the same time a parent / child / core interface with the same partner interface) *)
+Definition sig (h : hopf) : N * N := (hf_in h, hf_eg h).
+Definition peer_sigs (segs : list segment) : list (N * N) :=
+  flat_map (fun s => flat_map (fun ae => map (fun p => sig (pe_hf p)) (ae_peers ae)) (sg_entries s)) segs.
+Definition reg_sigs (segs : list segment) : list (N * N) :=
+  flat_map (fun s => map (fun ae => sig (ae_hf ae)) (sg_entries s)) segs.
+Definition peer_sig_distinctb (segs : list segment) : bool :=
+  forallb (fun a => negb (existsb (if_eqb a) (reg_sigs segs))) (peer_sigs segs).
+(** the hop-field interface sequence of a path: what the fingerprint hashes besides src / dst *)
+Definition hop_sigs (p : spath) : list (N * N) := map sig (flat_map ds_hops (sp_segs p)).
